@@ -209,7 +209,7 @@ pub fn run(r: &mut Report) {
     let mut d = Driver::spawn();
     let (shard, nshards) = shard();
     r.rule = "failing worlds (resolver-core generator, sparse stores so that audits are missing) with the real compute_suggest (offline: every version has sources, mocked diffstat |to^2 - from^2|); non-trivial = at least one suggestion; distinct by hash of the encoded world".into();
-    let n = if r.thorough() { 40000 } else { 6000 } / nshards;
+    let n = if r.thorough() { 60000 } else { 12000 } / nshards;
     let mut rng = Rng::new(r.seed.wrapping_add(shard.wrapping_mul(982451653)) ^ 0xC17);
     if shard == 0 {
         check_world(r, &mut d, &corpus_f9(), "corpus:C17-dedup");
